@@ -7,7 +7,9 @@ def prop(x, _depth=0):
     import numpy as np
     import puan
     if isinstance(x, puan.Bounds):
-        return ["Bounds", int(x.lower), int(x.upper)]
+        # the number types are part of the state: assume() leaves numpy integers, an interpretation leaves Python ints,
+        # and e.g. JSON serialisation tells them apart
+        return ["Bounds", int(x.lower), int(x.upper), type(x.lower).__name__ + "/" + type(x.upper).__name__]
     if isinstance(x, (bool, int, str, type(None))):
         return x
     if isinstance(x, (np.integer,)):
